@@ -162,16 +162,7 @@ struct String {
     }
 
     inline bool operator==(const Char_T *str) const noexcept {
-        SizeT offset{0};
-
-        if (str != nullptr) {
-            while ((*str != Char_T{0}) && (*str == First()[offset])) {
-                ++str;
-                ++offset;
-            }
-        }
-
-        return ((*str == Char_T{0}) && (Length() == offset));
+        return IsEqual(str, StringUtils::Count(str));
     }
 
     inline bool operator!=(const String &string) const noexcept {
